@@ -108,14 +108,23 @@ open FsDb.Conc
     specification state by the refinement relation. -/
 theorem C06_log_is_spec_history (acts : List Act) :
     let σ := exec {} acts
-    (Spec.run {} (linOps σ.lin)).2 = linOuts σ.lin ∧ R (withBusy σ) (Spec.run {} (linOps σ.lin)).1 :=
-  ⟨(reachable_inv acts).outs, (reachable_inv acts).rel⟩
+    -- the specification executing the operations of the log (a number drawn for nothing by the
+    -- collector's horizon step is logged as a counter advance; `opsOf` erases those) gives exactly
+    -- the logged answers …
+    (Spec.run {} (opsOf (linOps σ.lin))).2 = linOuts σ.lin ∧
+    -- … and the shared state is related to the specification state that follows the counter; the
+    -- transactions inside Commit / Rollback (`closing`) are exempt from the snapshot clause: they
+    -- read nothing any more
+    Rx σ.closing (withBusy σ) (Spec.erun {} (linOps σ.lin)).1 :=
+  ⟨log_pure (reachable_inv acts), (reachable_inv acts).rel⟩
 
 /-- **Every answer is the atomic answer at a point between call and return.**  In every reachable
     state, when thread `i` is about to return `o` from an operation other than GetKeys: the ghost
     witness is `o`, it was taken at a log position `witAt` with `invAt ≤ witAt ≤ |log|` (`invAt`:
     the log length at the call), and
-    * for `Get t k`: `o` is the specification's answer in the state after the first `witAt` log entries;
+    * for `Get t k`: `o` is the specification's answer in the state after the first `witAt` log entries
+      (`specAt`, which follows the counter advances of the log; `C06_get_linearizable` states it for
+      the specification executing the operations alone);
     * for Set/Delete/Begin/Commit/Rollback/gc/drain: the log entry at position `witAt - 1 ≥ invAt`
       is exactly `(i, op, o)` — by `C06_log_is_spec_history` the specification's answer there. -/
 theorem C06_linearizable (acts : List Act) (i : Nat) (o : Out)
@@ -136,7 +145,7 @@ theorem C06_get_linearizable (acts : List Act) (i t : Nat) (k : Key) (o : Out)
     (hret : ((exec {} acts).thr i).pc = .ret o) (hop : ((exec {} acts).thr i).op = some (.get t k)) :
     let σ := exec {} acts
     let th := σ.thr i
-    th.invAt ≤ th.witAt ∧ th.witAt ≤ σ.lin.length ∧ o = Spec.get (specAt σ th.witAt) t k := by
+    th.invAt ≤ th.witAt ∧ th.witAt ≤ σ.lin.length ∧ o = Spec.get (pureAt σ th.witAt) t k := by
   intro σ th
   obtain ⟨_, a, b, c⟩ := C06_linearizable acts i o hret (by rw [hop]; rfl)
   refine ⟨a, b, ?_⟩
@@ -144,6 +153,7 @@ theorem C06_get_linearizable (acts : List Act) (i t : Nat) (k : Key) (o : Out)
   unfold WitSem at c'
   have hop' : th.op = some (.get t k) := hop
   rw [hop'] at c'
+  rw [← specAt_get_pure (reachable_inv acts)]
   exact c'
 
 /-- … and for a state-changing operation: its log entry lies between call and return -/
@@ -152,7 +162,7 @@ theorem C06_write_linearizable (acts : List Act) (i : Nat) (op : Op) (o : Out)
     (hm : notRead op = true) :
     let σ := exec {} acts
     let th := σ.thr i
-    th.invAt < th.witAt ∧ th.witAt ≤ σ.lin.length ∧ σ.lin[th.witAt - 1]? = some (i, op, o) := by
+    th.invAt < th.witAt ∧ th.witAt ≤ σ.lin.length ∧ σ.lin[th.witAt - 1]? = some (i, .op op, o) := by
   intro σ th
   have hk : isKeys ((exec {} acts).thr i).op = false := by
     rw [hop]; cases op <;> simp_all [isKeys, notRead]
@@ -171,7 +181,7 @@ theorem C06_getkeys_subset (acts : List Act) (i t : Nat) (ks : List Key)
     (hret : ((exec {} acts).thr i).pc = .ret (.keys ks)) (hop : ((exec {} acts).thr i).op = some (.keys t)) :
     let σ := exec {} acts
     let th := σ.thr i
-    ∃ W, Spec.getKeys (specAt σ th.witAt) t = .keys W ∧ th.invAt ≤ th.witAt ∧ th.witAt ≤ σ.lin.length ∧ ∀ k ∈ ks, k ∈ W := by
+    ∃ W, Spec.getKeys (pureAt σ th.witAt) t = .keys W ∧ th.invAt ≤ th.witAt ∧ th.witAt ≤ σ.lin.length ∧ ∀ k ∈ ks, k ∈ W := by
   intro σ th
   have h := (reachable_inv acts).thr i
   have hp := h.pc
@@ -182,6 +192,7 @@ theorem C06_getkeys_subset (acts : List Act) (i t : Nat) (ks : List Key)
   unfold WitSem at c'
   have hop' : th.op = some (.keys t) := hop
   rw [hop'] at c'
+  rw [← specAt_getKeys_pure (reachable_inv acts)]
   exact ⟨W, c'.symm, a, b, hsub⟩
 
 /-- **No deadlock.**  The only blocking primitive of the model is the horizon mutex.  In every
@@ -220,7 +231,29 @@ example :
        .call 2 (.set 0 "k" 2), .run 2, .run 2, .run 2, .run 2,
        .call 3 .gc, .run 3, .run 3, .run 3, .run 3, .run 3,   -- version 1 collected, its content deleted
        .run 1, .run 1, .run 1, .run 1]                         -- content missing → look again → version 2
-    ((exec {} acts).thr 1).pc = .ret (.val 2) ∧ ((exec {} acts).thr 1).witAt = 3 ∧ (exec {} acts).lin.length = 3 := by
+    -- the log: set, set, the collector's entry, the counter after its horizon step
+    ((exec {} acts).thr 1).pc = .ret (.val 2) ∧ ((exec {} acts).thr 1).witAt = 4 ∧ (exec {} acts).lin.length = 4 := by
+  decide
+
+/-- **The window inside Commit** (non-vacuity of the `closing` part of the model): transaction 1 — a
+    snapshot that can still see version 1 of "k" — has executed `txRepo.Delete` of its Commit; a
+    collector pass now finds no transaction registered, draws a fresh number although the
+    specification still has transaction 1 open (logged as a counter advance), and reclaims version 1;
+    then `UpdateTx` runs and Commit returns nil.  Every state on the way satisfies the invariant
+    (`reachable_inv`), and every answer is the specification's (`C06_linearizable`). -/
+def commitWindow : List Act :=
+  [.call 0 (.set 0 "k" 1), .run 0, .run 0, .run 0, .run 0,
+   .call 1 (.begin 1 .ser), .run 1, .run 1, .run 1,
+   .call 0 (.set 0 "k" 2), .run 0, .run 0, .run 0, .run 0,
+   .call 1 (.commit 1), .run 1]
+
+theorem C06_commit_window_witness :
+    (exec {} commitWindow).closing = [1] ∧ ((exec {} commitWindow).sys.main "k").length = 2 ∧
+    (let σ := exec {} (commitWindow ++ [.call 2 .gc, .run 2, .run 2, .run 2, .run 2, .run 2])
+     σ.closing = [1] ∧ (σ.sys.main "k").length = 1 ∧ σ.sys.counter = 4 ∧
+     σ.lin.map (·.2.1) = [.op (.set 0 "k" 1), .op (.begin 1 .ser), .op (.set 0 "k" 2), .op .gc, .tick 4]) ∧
+    (let σ := exec {} (commitWindow ++ [.call 2 .gc, .run 2, .run 2, .run 2, .run 2, .run 2, .run 1])
+     σ.closing = [] ∧ (σ.thr 1).pc = .ret .ok ∧ σ.sys.reg = []) := by
   decide
 
 end FsDb.C06
